@@ -236,7 +236,9 @@ SubChecks(mx, sub, seqno, body, want, signersWant, who) ==
     \cup Fail(sub.accepted # want, "C08:AcceptIffQuorum", IF want THEN who \o "-rejected" ELSE who \o "-accepted")
 MinterChecks(call, pre, a, res) ==
     IF pre.mnt = <<>> \/ ~ConnAct(a) THEN {}
-    ELSE IF res.out # "ok" THEN {<<"C20:ConnectorFails", res.out>>}
+    \* (the connector of a validator the hub does not resolve -- unbonded, jailed -- gets errors from the hub's queries: its passes
+    \*  return early and its start-up gives up; that is outside the listed properties)
+    ELSE IF res.out # "ok" THEN (IF Has(call.ch[MC].q.unsigned, a.by) /\ call.ch[MC].q.unsigned[a.by].ok THEN {<<"C20:ConnectorFails", res.out>>} ELSE {})
     ELSE
     LET mx   == pre.mnt          \* the chain when the pass submitted / finished (a pass submits last)
         mx0  == call.mnt
@@ -260,8 +262,8 @@ MinterChecks(call, pre, a, res) ==
               ELSE   Fail(~CursorConsistent(mx0, dsk1) \/ dsk1 # cur1, "C20:CursorConsistent", v)
                 \cup Fail(cur1 # CursorAt(mx0, ResyncTo(mx0, dsk0, res.ack)), "conf:resync", v)
          [] a.k = "ConnBatches" ->
-              LET want == BatchToRelay(pre, cur0, conf)
-                  u    == pre.ch[MC].q.unsigned
+              LET u    == pre.ch[MC].q.unsigned
+                  want == IF Has(u, v) /\ ~u[v].ok THEN <<>> ELSE BatchToRelay(pre, cur0, conf)
               IN   Fail(Has(u, v) /\ u[v].ok /\ u[v].bat # <<>>, "C08:ConnectorConfirmsAll", v)
               \cup Fail(want = <<>> /\ res.subs # <<>>, "conf:relay", "unexpected-batch-submission")
               \cup Fail(want # <<>> /\ Len(res.subs) # 1, "conf:relay", "no-batch-submission")
@@ -272,8 +274,8 @@ MinterChecks(call, pre, a, res) ==
                          IN SubChecks(mx, sub, b.seq, sub.type = "multisend" /\ sub.items = BatchItems(b),
                                       MsigAccepts(mx, b.seq, signers) /\ Get(mx.cust, b.tok, 0) >= SumOver(b.txs, LAMBDA tr : tr.a), signers, "batch"))
          [] a.k = "ConnValsets" ->
-              LET want == SetToRelay(pre, cur0, conf)
-                  u    == pre.ch[MC].q.unsigned
+              LET u    == pre.ch[MC].q.unsigned
+                  want == IF Has(u, v) /\ ~u[v].ok THEN <<>> ELSE SetToRelay(pre, cur0, conf)
               IN   Fail(Has(u, v) /\ u[v].ok /\ u[v].ss # <<>>, "C08:ConnectorConfirmsAll", v)
               \cup Fail(want = <<>> /\ res.subs # <<>>, "conf:relay", "unexpected-valset-submission")
               \cup Fail(want # <<>> /\ Len(res.subs) # 1, "conf:relay", "no-valset-submission")
